@@ -16,7 +16,6 @@ func runMutations(r *engine.Run) {
 	flags := []string{""}
 	if r.Thorough() {
 		baseSize, baseExotic = 3, 1
-		flags = []string{"", "i"}
 	}
 	e := newEnv(r, "mutations", 2, 1)
 	if e == nil {
